@@ -5,6 +5,7 @@ Import ListNotations.
 From Coq Require Import ZArith.
 From JR Require Import Auth Auth_Proofs.
 From JRGen Require Extracted.
+From JR Require Skeletons.
 Open Scope string_scope.
 
 Section C19.
@@ -91,6 +92,13 @@ Example c19_ex_denied :
   = Denied (RValErr 0 true).
 Proof. reflexivity. Qed.
 
+(* the functions this property's model is an abstraction of still have the control / locking / shared-state skeleton the
+   model was written against (Skeletons.v, by hand; Extracted.v, regenerated from /repo) *)
+Theorem c19_code_skeletons :
+  JRGen.Extracted.effects_auth_ServeHTTP = JR.Skeletons.auth_ServeHTTP.
+Proof. repeat split; reflexivity. Qed.
+
+Print Assumptions c19_code_skeletons.
 Print Assumptions c19_runs_iff.
 Print Assumptions c19_ran_passes_through.
 Print Assumptions c19_denied_shape.
